@@ -98,6 +98,8 @@ function deepmergeConstructor(options: any) {
       value !== null &&
       !(value instanceof RegExp) &&
       !(value instanceof Date) &&
+      !(value instanceof Map) &&
+      !(value instanceof Set) &&
       !ArrayBuffer.isView(value)
     );
   }
@@ -114,6 +116,8 @@ function deepmergeConstructor(options: any) {
           value === null ||
           value instanceof RegExp ||
           value instanceof Date ||
+          value instanceof Map ||
+          value instanceof Set ||
           ArrayBuffer.isView(value) ||
           // @ts-ignore
           value instanceof Buffer
@@ -122,6 +126,8 @@ function deepmergeConstructor(options: any) {
           value === null ||
           value instanceof RegExp ||
           value instanceof Date ||
+          value instanceof Map ||
+          value instanceof Set ||
           ArrayBuffer.isView(value);
 
   const mergeArray =
